@@ -46,7 +46,7 @@ package bcl
 //
 //@ group C19,C10
 //@ func (*Prog).disasm
-//@   requires line_table: p.linePos != nil
+//@   requires [C19,C10,C13] line_table: p.linePos != nil
 //@   loop 1 invariant at_boundary: 0 <= offset && p.linePos != nil
 //@   loop 1 assume instruction_well_formed: wfInstr(p, offset)
 //@   loop 1 step each_instruction_once: offset == prev(offset) + instrLen(p, prev(offset))
